@@ -1304,6 +1304,9 @@ def gen(rng, tier):
     mini = [gen_sc_case(r2, r2.choice([3, 5, 8]), 2, r2.choice([6, 10, 14]), True) for _ in range(6 if quick else 40)]
     ks = [5, 20, 20, 40] if quick else [5, 5, 20, 20, 20, 40, 40, 40, 20, 5, 40, 20]
     full = [gen_sc_case(r2, k, 100, 200, False) for k in ks]
+    if quick:
+        # one case of medium depth, still inside what the Coq model evaluates in seconds
+        mini.append(gen_sc_case(r2, 5, 8, 24, True))
     # the expensive cases are spread over the list (the implementation runs in chunks of consecutive cases)
     extra = nl + mini
     step = max(1, len(cases) // (len(extra) + 1))
@@ -1502,10 +1505,19 @@ def _shrink_sc(case):
                     grp = set(slots[i * step: len(slots) if i == parts - 1 else (i + 1) * step])
                     yield _without(case, e, {k for k, op in enumerate(h) if op[0] in SLOT_OPS and op[1] in grp})
 
+SHRINK_LEFT = [48]     # candidates this process may still try (a candidate costs an in-Coq evaluation, a scale case seconds)
+
 def shrink(case):
-    if case.get('family') == 'sc':
-        yield from _shrink_sc(case)
-        return
+    """candidates for the runner's greedy shrinking; bounded per check run (the runner shrinks up to five failing cases with
+    up to 60 candidates each; with many failing cases of the new families that took longer than the search itself)"""
+    cost = 4 if case.get('family') == 'sc' else 1
+    for cand in (_shrink_sc(case) if case.get('family') == 'sc' else _shrink_ops(case)):
+        if SHRINK_LEFT[0] < cost:
+            return
+        SHRINK_LEFT[0] -= cost
+        yield cand
+
+def _shrink_ops(case):
     # big pieces first: the whole history of one engine, halves and quarters of a history, then single operations
     # (later operations first)
     for e in range(case['neng']):
